@@ -196,6 +196,14 @@ def find_items(src, toks, kind, name, lo=0, hi=None):
             out.append(_item_from_kw(src, toks, i, kind))
     return out
 
+def _find_items_any_depth(src, toks, kind, name, lo, hi):
+    out = []
+    for i, t in enumerate(toks):
+        if lo <= t.a < hi and t.kind == 'id' and t.text == kind and i + 1 < len(toks) \
+                and toks[i + 1].kind == 'id' and toks[i + 1].text == name:
+            out.append(_item_from_kw(src, toks, i, kind))
+    return out
+
 def find_impls(src, toks, header_re):
     """impl blocks (top level or inside `mod`) whose normalised header `impl ... ` (up to the
     opening brace, where-clauses included) matches header_re (re.search)"""
@@ -221,7 +229,11 @@ def locate(src, spec):
     is required; anything else is a lost anchor."""
     toks = tokenize(src)
     kind, name = spec['kind'], spec['name']
-    if spec.get('impl'):
+    if spec.get('in_fn'):
+        # a fn nested in the body of another fn (located with the same impl filter)
+        outer = locate(src, dict(kind='fn', name=spec['in_fn'], impl=spec.get('impl')))
+        found = [it for it in _find_items_any_depth(src, toks, kind, name, outer.body_open + 1, outer.body_close)]
+    elif spec.get('impl'):
         impls = find_impls(src, toks, spec['impl'])
         found = []
         for header, lo, hi in impls:
@@ -235,7 +247,7 @@ def locate(src, spec):
                     found += find_items(src, toks, kind, name, toks[i + 2].b, toks[k].a)
     if len(found) != 1:
         raise ScanError('lost anchor: %s %s%s matched %d items' % (
-            kind, name, (' in /' + spec['impl'] + '/') if spec.get('impl') else '', len(found)))
+            kind, name, (' in /' + str(spec.get('impl')) + '/') if spec.get('impl') else '', len(found)))
     return found[0]
 
 # --------------------------------------------------------------------------- inside a function
